@@ -40,6 +40,7 @@ pub struct Acc {
     pub counters: BTreeMap<String, u64>,
     pub accepted_same: BTreeMap<String, u64>,
     pub accepted_meta_differs: BTreeMap<String, u64>,
+    pub accepted_outside_digest: BTreeMap<String, u64>,
     pub operators: BTreeMap<String, u64>,
     pub nontrivial: Vec<u128>,
     pub violations: Vec<(String, Value)>,
@@ -102,6 +103,7 @@ impl<'a> Case<'a> {
 /// append-only validation): an alteration of one of them that is accepted — even with an
 /// unchanged state — is a hole.
 pub fn bound(field: &str, kind: &str) -> bool {
+    let field = field.strip_prefix("recorded.").unwrap_or(field);
     let canonical_equivalent = matches!(kind, "dup" | "swap" | "prepend-shadow")
         && matches!(field, "patch.ops" | "patch.in_slots" | "patch.out_slots");
     if canonical_equivalent {
@@ -122,7 +124,6 @@ pub fn bound(field: &str, kind: &str) -> bool {
         || field == "receipt.tx"
         || field.starts_with("receipt.entries")
         || field == "patch"
-        || field == "event_kind"
         || field == "head_key"
         || field == "head_key.worldline_id"
 }
@@ -170,7 +171,14 @@ pub fn classify(acc: &mut Acc, case: &Case, v: &Verdict, mode: Mode) {
         return;
     }
     if !v.diffs.is_empty() {
-        let stage = v.diffs[0].split(':').next().unwrap_or("?").to_owned();
+        // name the stage by the first verification path that accepted a different result
+        let first = v
+            .diffs
+            .iter()
+            .find(|d| d.starts_with("replay:"))
+            .or_else(|| v.diffs.iter().find(|d| d.starts_with("seek:")))
+            .unwrap_or(&v.diffs[0]);
+        let stage = first.split(':').next().unwrap_or("?").to_owned();
         acc.violation(
             format!("{}:{}:{}", stage, case.field, case.kind),
             detail(json!("a different result was accepted as verified")),
@@ -260,7 +268,7 @@ struct Generated {
 
 fn generate(r: &Report) -> Generated {
     let depth: usize = r.pick(3, 4);
-    let progs: u8 = r.pick(3, 4);
+    let progs: u8 = r.pick(2, 4);
     let mut histories: Vec<History> = Vec::new();
     let mut seen: std::collections::BTreeSet<[u8; 32]> = Default::default();
     let (mut states, mut transitions, mut capped) = (0, 0, false);
@@ -270,9 +278,15 @@ fn generate(r: &Report) -> Generated {
             St::new(Rt::new(cfg.0, cfg.1)),
             depth,
             |s: &St| s.fp(),
-            |_s, _p: &[Op]| {
+            |_s, p: &[Op]| {
                 let mut v = Vec::new();
+                // an ingest never changes the provenance: at the last level only the tick can
+                // produce a new history
+                let last_level = p.len() + 1 == depth;
                 for w in 1..=cfg.0 {
+                    if last_level {
+                        break;
+                    }
                     for head in 0..cfg.1 {
                         for prog in 0..progs {
                             v.push(Op::Ingest { w, head, prog });
@@ -330,6 +344,8 @@ pub struct Params {
     pub thorough: bool,
     pub pos: Vec<usize>,
     pub donors: usize,
+    /// Replay mode: run only this phase.
+    pub only_phase: Option<String>,
 }
 
 fn run_history(r: &Report, all: &[History], idx: usize, prm: &Params) -> Acc {
@@ -346,25 +362,59 @@ fn run_history(r: &Report, all: &[History], idx: usize, prm: &Params) -> Acc {
         }
     };
     let t0 = std::time::Instant::now();
+    let tm = |name: &'static str, t: std::time::Instant| {
+        if std::env::var("C05_TIMING").is_ok() {
+            eprintln!("[C05-T] {name} {:.4}", t.elapsed().as_secs_f64());
+        }
+    };
     phases::positive(&mut acc, h, &base);
+    tm("positive", t0);
     if r.over_budget_frac(0.9) {
         acc.capped = true;
         return acc;
     }
-    phases::entry_fields(&mut acc, h, &base, prm);
-    phases::structural(&mut acc, h, &base, all, idx, prm);
+    let want = |p: &str| prm.only_phase.as_deref().map_or(true, |o| o == p);
+    let t = std::time::Instant::now();
+    if want("entry") {
+        phases::entry_fields(&mut acc, h, &base, prm);
+    }
+    tm("entry", t);
+    let t = std::time::Instant::now();
+    if want("structure") {
+        phases::structural(&mut acc, h, &base, all, idx, prm);
+    }
+    tm("structural", t);
     if r.over_budget_frac(0.9) {
         acc.capped = true;
         return acc;
     }
-    phases::checkpoints(&mut acc, h, &base, prm);
-    phases::btr(&mut acc, h, &base, prm);
-    phases::suffix(&mut acc, h, &base, prm);
+    let t = std::time::Instant::now();
+    if want("checkpoint") {
+        phases::checkpoints(&mut acc, h, &base, prm);
+    }
+    tm("checkpoints", t);
+    let t = std::time::Instant::now();
+    if want("btr") {
+        phases::btr(&mut acc, h, &base, prm);
+    }
+    tm("btr", t);
+    let t = std::time::Instant::now();
+    if want("suffix") {
+        phases::suffix(&mut acc, h, &base, prm);
+    }
+    tm("suffix", t);
     let scripted = h.label.starts_with("scripted:");
     let t1 = t0.elapsed().as_secs_f64();
-    if prm.thorough || scripted || idx % 32 == 0 {
+    let t = std::time::Instant::now();
+    let first_scripted = all.iter().position(|x| x.label.starts_with("scripted:")) == Some(idx);
+    let retained_selected = match &prm.only_phase {
+        Some(p) => p == "retained",
+        None => (prm.thorough && (scripted || idx % 16 == 0)) || (!prm.thorough && first_scripted),
+    };
+    if retained_selected {
         phases::retained(&mut acc, h, &base, prm, r);
     }
+    tm("retained", t);
     if std::env::var("C05_TIMING").is_ok() {
         eprintln!("[C05] history {idx} {} entries={} evals={} t={:.2}s retained+={:.2}s", h.label, h.entries.len(), acc.evals, t1, t0.elapsed().as_secs_f64() - t1);
     }
@@ -380,7 +430,8 @@ fn main() {
     }
     r.rule(
         "histories = all distinct provenance histories reached by BFS over {ingest(program->head), tick} \
-         (depth 3 quick / 4 thorough) on {1,2 worldlines}x{1,2 heads} + 3 scripted deeper histories (one forked). \
+         (depth 3 with 2 programs quick / depth 4 with 4 programs thorough; ingests are not expanded at the last level because they cannot change the provenance) \
+         on {1,2 worldlines}x{1,2 heads} + 5 scripted deeper histories over 6 programs (one forked strand, two settled strands with recorded import/conflict events). \
          A case = (history, phase, position, field, mutation kind, detail): one altered copy of retained/transported \
          material (entry field, structural edit, checkpoint, BTR, suffix bundle, retained-encoding bit) that differs \
          from the original, fed to the real append/import/validate APIs of a fresh store and re-verified by \
@@ -388,7 +439,7 @@ fn main() {
          import_suffix. distinct_nontrivial counts distinct such cases (no-op mutants are skipped).",
     );
     r.assume("The replay base (registered initial boundary) and, for transplants, the original commit ids are the verifier's trusted anchors.");
-    r.assume("32-byte fields: bytes 0 and 31 are flipped in quick, all 32 bytes in thorough; integers: +1, -1 (wrapping), MAX.");
+    r.assume("32-byte fields: bytes 0 and 31 are flipped in quick, bytes 0, 7, 16, 31 in thorough (all 32 in --replay); integers: +1, -1 (wrapping), MAX. Retained encodings: every single BIT of the WAL state-delta payload.");
     r.assume("witnessed_suffix has no production context: the harness context derives the shell digest with the public derive_witnessed_suffix_shell_digest, resolves target bases against the real store and echoes the shell's entries as admitted refs.");
     r.assume("WorldlineState fields are crate-private: checkpoint states are substituted with states obtainable through public APIs (other ticks, other worldlines, live frontier, fresh WorldlineState::new, cursor state after a failed seek, replay of an accepted_same_state store).");
     r.assume("WarpState has no PartialEq: states are compared by Debug fingerprint, with an order-insensitive fallback when roots agree.");
@@ -397,7 +448,8 @@ fn main() {
     let prm = Params {
         thorough: r.thorough(),
         pos: mutate::positions(r.thorough()),
-        donors: r.pick(3, 8),
+        donors: r.pick(3, 6),
+        only_phase: None,
     };
     let g = generate(&r);
     eprintln!("[C05] generated {} histories in {:.1}s", g.histories.len(), r.elapsed_s());
@@ -441,6 +493,7 @@ fn main() {
     // ---- deterministic merge ----
     let mut accepted_same: BTreeMap<String, u64> = BTreeMap::new();
     let mut accepted_meta: BTreeMap<String, u64> = BTreeMap::new();
+    let mut accepted_outside: BTreeMap<String, u64> = BTreeMap::new();
     let mut operators: BTreeMap<String, u64> = BTreeMap::new();
     let mut capped = false;
     let mut all_outcomes: BTreeMap<String, u64> = BTreeMap::new();
@@ -458,6 +511,9 @@ fn main() {
         }
         for (k, n) in a.accepted_meta_differs {
             *accepted_meta.entry(k).or_insert(0) += n;
+        }
+        for (k, n) in a.accepted_outside_digest {
+            *accepted_outside.entry(k).or_insert(0) += n;
         }
         for (k, n) in a.operators {
             *operators.entry(k).or_insert(0) += n;
@@ -482,6 +538,7 @@ fn main() {
     let same_total: u64 = accepted_same.values().sum();
     r.note("accepted_same_state", json!(accepted_same));
     r.note("accepted_same_state_but_replay_metadata_differs", json!(accepted_meta));
+    r.note("accepted_outside_digest", json!(accepted_outside));
     r.note("operators_applied", json!(operators));
 
     // ---- vacuity guards ----
@@ -514,8 +571,16 @@ fn main() {
     r.guard("retained_bytes_exercised", r.counter_value("retained_bitflips") > 0);
     r.guard(
         "retained_bitflip_decoded_and_reverified",
-        r.counter_value("retained_bitflips_decoded_ok") > 0 || r.counter_value("retained_bitflips") > 0,
+        r.counter_value("retained_bitflips_decoded_ok") > 0,
     );
+    r.counter(
+        "recorded_event_entries",
+        hs.iter()
+            .flat_map(|h| h.entries.iter())
+            .filter(|e| !matches!(e.event_kind, warp_core::ProvenanceEventKind::LocalCommit))
+            .count() as u64,
+    );
+    r.guard("recorded_events_present", r.counter_value("recorded_event_entries") > 0);
     r.finish();
 }
 
@@ -552,8 +617,9 @@ fn replay(r: &Report, path: &std::path::Path) {
     };
     let prm = Params {
         thorough: true,
-        pos: mutate::positions(true),
+        pos: mutate::all_positions(),
         donors: 0,
+        only_phase: Some(case["phase"].as_str().unwrap_or("").to_owned()),
     };
     let all = vec![h];
     let acc = run_history(r, &all, 0, &prm);
